@@ -27,7 +27,7 @@ func init() {
 			"termination is observed by the per-run watchdog (a hang makes the run inconclusive, with the case id in the worker's current-case file)",
 			"the prefix relation is event-for-event on (delta, canonical message bytes); a missing end-of-track at the end of the last track is a legitimate prefix",
 		},
-		Require: []string{"reads_after_failed_read", "sequence_failed_reads", "truncations", "truncation_results_ok_value", "truncation_results_error", "mutants", "random_strings", "targeted", "alloc_measurements", "reads_with_log", "big_payload_truncations", "proportionality_checks", "concurrent_truncation_files"},
+		Require: []string{"shape_additivity_checks", "reads_after_failed_read", "sequence_failed_reads", "truncations", "truncation_results_ok_value", "truncation_results_error", "mutants", "random_strings", "targeted", "alloc_measurements", "reads_with_log", "big_payload_truncations", "proportionality_checks", "concurrent_truncation_files"},
 		UsesCur: true,
 		Run:     runC05,
 	})
@@ -432,6 +432,62 @@ func runC05(c *mon.Ctx) {
 			c.Violation("alloc-superlinear", fmt.Sprintf("allocation per input byte grows with the input: %.1f B/B for %d bytes, %.1f B/B for %d bytes", perByte[0], sizes[0], perByte[len(perByte)-1], sizes[len(sizes)-1]), fmt.Sprint(sizes), fmt.Sprintf("about %.1f B/B", perByte[0]), fmt.Sprint(perByte))
 		}
 		c.DistinctBytes([]byte(fmt.Sprint("prop", i)))
+	})
+
+	// ---- shapes: what a file costs must be about the sum of what its parts cost. One long track among many
+	// short ones (first, in the middle, last), many tracks of growing / shrinking length.
+	c.Each("shape-additivity", c.N(6, 24), func(i int64, r *mon.Rand) {
+		mkTrack := func(nev int, seed int) []ref.EncEv {
+			tr := make([]ref.EncEv, 0, nev+1)
+			for k := 0; k < nev; k++ {
+				tr = append(tr, ref.EncEv{Ev: ref.Ev{Delta: uint32(k % 3), Msg: []byte{0x90 | byte((k+seed)&15), byte(k & 127), byte(1 + k%100)}}})
+			}
+			return append(tr, ref.EncEv{Ev: ref.Ev{Delta: 0, Msg: ref.EOT}})
+		}
+		long := mkTrack(r.Pick(20_000, 30_000, 60_000), 0)
+		nshort := r.Pick(100, 200, 400)
+		var shorts [][]ref.EncEv
+		for k := 0; k < nshort; k++ {
+			shorts = append(shorts, mkTrack(r.Range(1, 8), k))
+		}
+		file := func(tracks [][]ref.EncEv) []byte {
+			return (&ref.EncFile{Format: 1, Division: 96, NTracks: -1, Tracks: tracks}).Bytes(nil)
+		}
+		measure := func(b []byte) (uint64, bool) {
+			runtime.GC()
+			runtime.ReadMemStats(&k.ms)
+			before := k.ms.TotalAlloc
+			s, err := smf.ReadFrom(bytes.NewReader(b))
+			runtime.ReadMemStats(&k.ms)
+			c.Count("alloc_measurements", 1)
+			return k.ms.TotalAlloc - before, err == nil && s != nil
+		}
+		var combined [][]ref.EncEv
+		pos := []string{"first", "in the middle", "last"}[i%3]
+		switch i % 3 {
+		case 0:
+			combined = append([][]ref.EncEv{long}, shorts...)
+		case 1:
+			combined = append(append(append([][]ref.EncEv(nil), shorts[:nshort/2]...), long), shorts[nshort/2:]...)
+		default:
+			combined = append(append([][]ref.EncEv(nil), shorts...), long)
+		}
+		in := map[string]any{"long_track_events": len(long) - 1, "short_tracks": nshort, "long_track_position": pos}
+		c.CurPayload([]byte(fmt.Sprint(in)))
+		aLong, ok1 := measure(file([][]ref.EncEv{long}))
+		aShort, ok2 := measure(file(shorts))
+		bAll := file(combined)
+		aAll, ok3 := measure(bAll)
+		if !ok1 || !ok2 || !ok3 {
+			c.Violation("big-file", "a valid multi-track file does not read", in, nil, nil)
+			return
+		}
+		c.Count("shape_additivity_checks", 1)
+		c.MaxOf("max_alloc_whole_over_sum_of_parts", float64(aAll)/float64(aLong+aShort))
+		if aAll > 2*(aLong+aShort)+1<<20 {
+			c.Violation("alloc-shape", fmt.Sprintf("a file of %d bytes with one track of %d events %s among %d short tracks allocates %d bytes; the long track alone costs %d, the short tracks alone %d", len(bAll), len(long)-1, pos, nshort, aAll, aLong, aShort), in, fmt.Sprintf("about %d", aLong+aShort), aAll)
+		}
+		c.DistinctBytes([]byte(fmt.Sprint("shape", i, len(long), nshort)))
 	})
 
 	// ---- independent reads from 8 goroutines at once: the prefix relation must hold all the same
